@@ -7,9 +7,9 @@ os.environ['VERIF_NO_EVIDENCE'] = '1'
 from rules import runner
 facts = sys.argv[1]
 out = {}
-from rules.facts import Facts, strip_generics
+from rules.facts import Facts, strip_generics, canon_path
 F = Facts(facts)
-out['_api'] = sorted(set(strip_generics(b['path']) for b in F.bodies if F.is_hand_written(b) and b['def_kind'] in ('Fn', 'AssocFn') and ('Public' in (b.get('vis') or '') or b.get('container') in ('trait', 'trait_impl'))))
+out['_api'] = sorted(set(canon_path(b['path']) for b in F.bodies if F.is_hand_written(b) and b['def_kind'] in ('Fn', 'AssocFn') and ('Public' in (b.get('vis') or '') or b.get('container') in ('trait', 'trait_impl'))))
 print('_api', len(out['_api']), 'functions')
 _old = json.load(open('/verif/rules/floors.json')) if os.path.exists('/verif/rules/floors.json') else {}
 _old['_api'] = out['_api']
